@@ -21,7 +21,9 @@ MANIFEST = {
                 "a path ending at space ':' '|' or the line end, a value running to the line end - stops where the manual says (after a path, blanks and $-newline continuations are skipped), "
                 "and rejects everything else (bad $-escape, NUL, lone CR) with a diagnostic. ReadToken: first-byte clauses (tab indentation is rejected with the 'tabs are not allowed' "
                 "diagnosis, = : | || |@ newline CRLF EOF, identifiers) for all 3-byte prefixes and the keyword table on concrete texts. "
-                "NOT decided: everything in ManifestParser / eval_env / state (scoping, lookup order, include vs subninja, duplicate outputs, unknown rule or pool, ...), path canonicalisation at use sites (C14 covers the function).",
+                "Parser side, two statements only (real text of ManifestParser::ParseFileInclude / ParseDefault against Lexer, Parser::Load and State contracts): `include` parses the named file in the CURRENT scope and "
+                "`subninja` in a NEW child scope - for every sequence of two such statements, also an include after a subninja; default targets are canonicalised and unknown ones rejected. "
+                "NOT decided: the rest of ManifestParser / eval_env / state (lookup order build-rule-file, immediate vs late expansion, duplicate outputs, unknown rule or pool, missing command, non-reserved rule variable, dyndep not an input); ParseRule was attempted and did not finish.",
         "design_ref": "DESIGN.md 5 C12",
     },
     "level_note": "trusted: cbmc 6.11 C++ front end (--paths lifo), model std::string, specs/ninja_lex_ref.h (the oracle: a branch-free automaton written from the manual, natively tested), "
@@ -182,7 +184,7 @@ ERROR_STUB = ("bool Lexer::Error(const string& message, string* err) {\n"
 
 def lexer_text(mutant=None, real_error=False):
     t = slicer.read_src("src/lexer.cc")
-    if mutant:
+    if mutant and getattr(mutant, "target", None) is None:       # mutants with a target belong to the parser unit
         t = mutant(t)
     if not real_error:
         a, _b, c = slicer.function_span(t, r'bool\s+Lexer::Error\s*\(')
@@ -241,12 +243,32 @@ def jobs(tier, mutant=None):
                       bound="every 2-byte string with ninja_required_version < 1.14 ($^ must be rejected)", functions=["Lexer::ReadEvalString"], weight=50))
     js.append(Job("lexer.token.prefix3", _build(2, 3, [], mutant), "bounded", timeout=3000, bound="ReadToken on every 3-byte prefix", functions=["Lexer::ReadToken", "Lexer::EatWhitespace", "Lexer::DescribeLastError"],
                   weight=400))
+    # parser side (modular, props/mpunit.py): include / subninja scoping and the default statement
+    from props import mpunit
+    js.append(mpunit.job("ManifestParser.ParseFileInclude.contract", "mp_small.cc", ["OP=0"], mutant, canaries=2,
+                         bound="two consecutive file statements (include / subninja in any combination) in a top-level or nested scope; every lexer / loader outcome symbolic"))
+    js.append(mpunit.job("ManifestParser.ParseDefault.contract", "mp_small.cc", ["OP=2"], mutant, canaries=2,
+                         bound="a default statement with up to 3 targets; every lexer / state outcome symbolic"))
     js.append(Job("lexer.token.keywords", _build(3, 0, [], mutant, unwind=60), "bounded", timeout=600, bound="concrete texts: the keyword table, comments, indents, ReadIdent",
                   functions=["Lexer::ReadToken", "Lexer::ReadIdent", "Lexer::EatWhitespace"], weight=5))
     return js
 
 
-MUTANTS = []   # filled below (edits of the generated DFA need exact text; see selftest notes)
+def _m(target, old, new):
+    f = subst(old, new)
+    f.target = target
+    return f
+
+
+def _lx(old, new):
+    return subst(old, new)       # lexer mutants are applied to the whole lexer.cc text
+
+
+MUTANTS = [
+    ("include_env_set_only_on_creation", _m("ParseFileInclude", "  if (new_scope) {\n    subparser_->env_ = new BindingEnv(env_);\n  } else {\n    subparser_->env_ = env_;\n  }", "  if (new_scope) {\n    subparser_->env_ = new BindingEnv(env_);\n  }")),
+    ("subninja_shares_scope", _m("ParseFileInclude", "subparser_->env_ = new BindingEnv(env_);", "subparser_->env_ = env_;")),
+    ("default_not_canonicalised", _m("ParseDefault", "    CanonicalizePath(&path, &slash_bits);\n", "")),
+]
 
 
 def replay(job, ob, vals, scratch):
@@ -258,7 +280,7 @@ def replay(job, ob, vals, scratch):
 
 def describe(tier):
     return {
-        "functions": ["lexer.cc:Lexer::ReadEvalString (ReadPath / ReadVarValue)", "lexer.cc:Lexer::EatWhitespace", "lexer.cc:Lexer::ReadToken", "lexer.cc:Lexer::ReadIdent", "lexer.cc:Lexer::DescribeLastError"],
+        "functions": ["lexer.cc:Lexer::ReadEvalString (ReadPath / ReadVarValue)", "lexer.cc:Lexer::EatWhitespace", "lexer.cc:Lexer::ReadToken", "lexer.cc:Lexer::ReadIdent", "lexer.cc:Lexer::DescribeLastError", "manifest_parser.cc:ManifestParser::ParseFileInclude", "manifest_parser.cc:ManifestParser::ParseDefault"],
         "checker_cmd": "goto-cc -std=c++11 lexer.cc harness.cc; cbmc a.gb --paths lifo --unwind 40 --unwinding-assertions + bounds/pointer/overflow checks",
         "trusted_base": ["cbmc 6.11.0 C++ front end, path-by-path symbolic execution", "specs/ninja_lex_ref.h (oracle written from the manual; natively tested)", "stubs/std/string",
                          "EvalString recording stub; Lexer::Error by contract", "default member initialisers of Lexer are set by the harness (front-end defect F-a)"],
